@@ -187,6 +187,9 @@ func runCase(c Case) (ret *retained, obs Obs, nontrivial bool) {
 		pre[k] = append([]byte(nil), v...)
 	}
 	var e *el.Event
+	if c.NilEvent {
+		pre = map[string][]byte{} // there is no event, hence no table
+	}
 	if !c.NilEvent {
 		e = &el.Event{Type: el.EventType(ty), CreatedAt: tm, Payload: payload, Formatted: formatted}
 	}
@@ -197,6 +200,7 @@ func runCase(c Case) (ret *retained, obs Obs, nontrivial bool) {
 	sch, schTok, schOK := mkURL(c.Schema)
 	var node *ce.FormatterFilter
 	var calls [][]byte
+	predErr := false
 	if !c.NilNode {
 		node = &ce.FormatterFilter{Source: src, Schema: sch, Format: ce.Format(c.Format)}
 		for _, t := range c.Types {
@@ -225,9 +229,9 @@ func runCase(c Case) (ret *retained, obs Obs, nontrivial bool) {
 		case 2:
 			node.Predicate = func(context.Context, interface{}) (bool, error) { return false, nil }
 		case 3:
-			node.Predicate = func(context.Context, interface{}) (bool, error) { return false, errPred }
+			node.Predicate = func(context.Context, interface{}) (bool, error) { predErr = true; return false, errPred }
 		case 4:
-			node.Predicate = func(context.Context, interface{}) (bool, error) { return true, errPred }
+			node.Predicate = func(context.Context, interface{}) (bool, error) { predErr = true; return true, errPred }
 		}
 	}
 	var out *el.Event
@@ -320,10 +324,10 @@ func runCase(c Case) (ret *retained, obs Obs, nontrivial bool) {
 	}
 	prefix := fmt.Sprintf("CCe %d {| k_cfg := {| k_nil := %s; k_source := %s; k_schema := %s; k_format := %s; k_pred := %d; k_signer := %d; k_tag := %s; k_types := [%s] |};\n"+
 		"   k_evnil := %s; k_type := %s; k_time := %s; k_payload := {| y_id := %s; y_data := %s |}; k_pre := %s; k_fresh := %s;\n"+
-		"   k_obs := {| b_err := %s; b_out := %d; b_table := %s; b_frame := %s; b_calls := [%s]; b_time_ok := %s",
+		"   k_obs := {| b_err := %s; b_out := %d; b_table := %s; b_frame := %s; b_calls := [%s]; b_time_ok := %s; b_pred_err := %s",
 		c.ID, hc.B(c.NilNode), jgen.OptBytes(srcTok, srcOK), jgen.OptBytes(schTok, schOK), fmtLit(c.Format), c.Pred, c.Signer, jgen.Bytes(tag), strings.Join(typesLit, "; "),
 		hc.B(c.NilEvent), jgen.Bytes(ty), jgen.OptBytes(c.Time.Text(), c.Time.Encodable()), idLit, dataLit, preLit, jgen.Bytes(fresh),
-		hc.B(obs.Err), obs.Out, jgen.TableLit(after, extra), hc.B(obs.Frame), strings.Join(callsLit, "; "), hc.B(obs.TimeOK))
+		hc.B(obs.Err), obs.Out, jgen.TableLit(after, extra), hc.B(obs.Frame), strings.Join(callsLit, "; "), hc.B(obs.TimeOK), hc.B(predErr))
 	// keep the event together with a private copy of the document stored right now: it is re-read after later Process calls
 	// on other events (the stored document must stay what was stored)
 	ret = &retained{id: c.ID, prefix: prefix, ev: e, key: "cloudevents-json"}
@@ -654,6 +658,85 @@ func genRandom(em *emitter, r *hc.Rand, n, depth int) {
 	}
 }
 
+// genConc: one shared FormatterFilter used by several goroutines at once on payloads without ID(); every event must get
+// its own fresh id (C18: "otherwise fresh and unique") and no call may panic
+func concurrentIDs(ng, per int) (total int, dups []string, panics int, firstPanic string) {
+	src, _ := url.Parse("https://conc.example")
+	node := &ce.FormatterFilter{Source: src}
+	ids := make([][]string, ng)
+	pan := make([]int, ng)
+	msgs := make([]string, ng)
+	var wg sync.WaitGroup
+	for g := 0; g < ng; g++ {
+		wg.Add(1)
+		go func(g int) {
+			defer wg.Done()
+			for i := 0; i < per; i++ {
+				func() {
+					defer func() {
+						if p := recover(); p != nil {
+							pan[g]++
+							if msgs[g] == "" {
+								msgs[g] = fmt.Sprint(p)
+							}
+						}
+					}()
+					e := &el.Event{Type: "t", CreatedAt: time.Unix(int64(i), 0).UTC(), Payload: i}
+					if _, err := node.Process(context.Background(), e); err != nil {
+						return
+					}
+					doc, _ := e.Format("cloudevents-json")
+					var m map[string]interface{}
+					if decodeDoc(doc, &m) == nil {
+						if s, ok := m["id"].(string); ok {
+							ids[g] = append(ids[g], s)
+						}
+					}
+				}()
+			}
+		}(g)
+	}
+	wg.Wait()
+	seen := map[string]int{}
+	for g := range ids {
+		panics += pan[g]
+		if firstPanic == "" {
+			firstPanic = msgs[g]
+		}
+		for _, s := range ids[g] {
+			total++
+			seen[s]++
+			if seen[s] == 2 || s == "" && seen[s] == 1 {
+				dups = append(dups, s)
+			}
+		}
+	}
+	if len(dups) > 20 {
+		dups = dups[:20]
+	}
+	return
+}
+
+func genConc(em *emitter, ng, per int) {
+	total, dups, panics, first := concurrentIDs(ng, per)
+	id := em.next
+	em.next++
+	parts := make([]string, len(dups))
+	for i, s := range dups {
+		parts[i] = jgen.Bytes([]byte(s))
+	}
+	em.flush()
+	em.cf.Add(fmt.Sprintf("CConc %d %d [%s] %d", id, total, strings.Join(parts, "; "), panics))
+	js, _ := json.Marshal(map[string]interface{}{"id": id, "gen": "concurrent-ids", "goroutines": ng, "events_per_goroutine": per,
+		"ids_collected": total, "ids_handed_out_more_than_once": dups, "panics": panics, "first_panic": first})
+	em.side.Write(js)
+	em.side.Write([]byte("\n"))
+	em.stats["concurrent-events"] = total
+	em.stats["concurrent-duplicate-ids"] = len(dups)
+	em.stats["concurrent-panics"] = panics
+	em.stats["cases"]++
+}
+
 func runCorpus(em *emitter, path string) {
 	data, err := os.ReadFile(path)
 	if err != nil {
@@ -686,6 +769,7 @@ func main() {
 	perShard := flag.Int("per-shard", 120, "cases per file")
 	corpus := flag.String("corpus", "", "corpus file (JSON lines), run first")
 	replay := flag.String("replay", "", "replay one JSON case and print its observations")
+	concPer := flag.Int("conc-per", 2500, "events per goroutine of the concurrent fresh-id part (8 goroutines)")
 	flag.Parse()
 
 	if *replay != "" {
@@ -699,6 +783,11 @@ func main() {
 		}
 		if err := json.Unmarshal(data, &wrapper); err != nil || wrapper.Case.Payload == nil {
 			_ = json.Unmarshal(data, &wrapper.Case)
+		}
+		if wrapper.Case.Gen == "concurrent-ids" {
+			total, dups, panics, first := concurrentIDs(8, *concPer)
+			fmt.Printf("concurrent fresh ids: %d events, ids handed out more than once: %q, panics: %d %s\n", total, dups, panics, first)
+			return
 		}
 		if wrapper.Case.Payload == nil {
 			fmt.Println("this record has no single case to re-run (fresh-id summary):", string(data))
@@ -742,6 +831,8 @@ func main() {
 			genGrid(em)
 		case "random":
 			genRandom(em, r.Fork(), *nRandom, *depth)
+		case "conc":
+			genConc(em, 8, *concPer)
 		case "":
 		default:
 			fmt.Fprintf(os.Stderr, "unknown mode %s\n", m)
